@@ -2,7 +2,7 @@
 # Runs the pinned baseline suite (hooks feature OFF) on a scratch worktree of /repo's HEAD,
 # so uncommitted work in /repo does not interfere.  Output: /tmp/baseline-head.{log,sum}
 WT=/tmp/wt-base
-export CARGO_TARGET_DIR=/tmp/mut-target CARGO_NET_OFFLINE=true
+export CARGO_TARGET_DIR=/tmp/confirm-target CARGO_NET_OFFLINE=true CARGO_PROFILE_DEV_DEBUG=0 CARGO_PROFILE_TEST_DEBUG=0
 HEAD=$(git -C /repo rev-parse HEAD)
 if [ ! -d "$WT" ]; then git -C /repo worktree add --detach "$WT" HEAD -q; fi
 git -C "$WT" checkout -q -- . ; git -C "$WT" clean -fdq; git -C "$WT" checkout -q --detach "$HEAD"
